@@ -530,3 +530,57 @@ mod tests {
 
 /// Verification hooks (add-only, behaviour-neutral): read and construct the private
 /// lock state so an external harness can compare it with a model.
+#[cfg(feature = "verif-hooks")]
+impl CredSoftLock {
+    fn verif_flat(state: &LockState) -> (u8, usize, Duration, Duration) {
+        match state {
+            LockState::Init => (0, 0, Duration::ZERO, Duration::ZERO),
+            LockState::Locked {
+                count,
+                reset_at,
+                unlock_at,
+            } => (1, *count, *reset_at, *unlock_at),
+            LockState::Unlocked(count, reset_at) => (2, *count, *reset_at, Duration::ZERO),
+        }
+    }
+
+    /// (kind, count, reset_at, unlock_at, last_expire_at); kind 0 = Init, 1 = Locked, 2 = Unlocked.
+    pub fn verif_peek(&self) -> (u8, usize, Duration, Duration, Duration) {
+        let (k, c, r, u) = Self::verif_flat(&self.state);
+        (k, c, r, u, self.last_expire_at)
+    }
+
+    /// Build a lock in an arbitrary state (same encoding as `verif_peek`).
+    pub fn verif_with_state(
+        policy: CredSoftLockPolicy,
+        kind: u8,
+        count: usize,
+        reset_at: Duration,
+        unlock_at: Duration,
+        last_expire_at: Duration,
+    ) -> Self {
+        let state = match kind {
+            1 => LockState::Locked {
+                count,
+                reset_at,
+                unlock_at,
+            },
+            2 => LockState::Unlocked(count, reset_at),
+            _ => LockState::Init,
+        };
+        CredSoftLock {
+            state,
+            policy,
+            last_expire_at,
+        }
+    }
+
+    /// The private `CredSoftLockPolicy::failure_next_state`, flattened.
+    pub fn verif_failure_next_state(
+        policy: &CredSoftLockPolicy,
+        count: usize,
+        ct: Duration,
+    ) -> (u8, usize, Duration, Duration) {
+        Self::verif_flat(&policy.failure_next_state(count, ct))
+    }
+}
